@@ -149,7 +149,7 @@ CHECKS = {
                 'ever tested by truthiness where its type has falsy inhabitants (empty dict, empty tuple, 0): types come from the resolved '
                 'callee\'s annotation; plus the shape of match_single (both sides destructured per constructor, bound metavariables '
                 'compared not rebound, substitution threaded, notation expanded first). Decides that the empty substitution / id 0 is '
-                'never taken for failure; soundness/completeness as equations are not evaluated. `match(equations)` hands every equation to match_single with the accumulated substitution and keeps the result; no equation is skipped and a failure fails the system. The destructuring helpers match_single relies on (unwrap, X.deconstruct) expand every notation level; no function of pattern.py writes a module-level table (matching is a function of its arguments).',
+                'never taken for failure; soundness/completeness as equations are not evaluated. `match(equations)` hands every equation to match_single with the accumulated substitution and keeps the result; no equation is skipped and a failure fails the system. The destructuring helpers match_single relies on (unwrap, X.deconstruct) expand every notation level; no function of pattern.py writes a module-level table (matching is a function of its arguments). On every successful path for a constructor each of its components is matched against or compared with the same component of the instance (all-components-matched).',
         'note': 'Trusted: return annotations; two triaged intended emptiness tests.',
         'design_ref': 'DESIGN.md section 3, C13',
     },
@@ -185,7 +185,7 @@ CHECKS = {
                 'weights 20*5^i; mandatory hypotheses are numbered 1,2,.. from the insertion-ordered list of floating hypotheses '
                 '(database order), never from a set (hash-seed dependent) nor merely sorted. The numeric decoding of all step numbers, '
                 'Z placement and whitespace layouts are not decided. Labels registered from `text.split(sep)` with an explicit separator must filter empty tokens (the empty list `( )` is legal); where numbers past the label list are resolved (translate.exec_proof) every Z saves and remembers the top unconditionally and number n reloads slot n - len(labels) - 1 (shared with C16). A regular expression that cuts the proof into steps must repeat the high-digit class U-Y without bound before one A-T (read with re\'s parser); hash() / id() is never used as the identity of a term outside __hash__.'
-                ' The hypothesis numbering is found in converter helpers and in comprehension form; the number->label table extended with a proof\'s labels is created per proof (label-table-fresh); a decoder written with zip over a place-value table needs a table that reaches 10^6.',
+                ' The hypothesis numbering is found in converter helpers and in comprehension form; the number->label table extended with a proof\'s labels is created per proof (label-table-fresh); a decoder written with zip over a place-value table needs a table that reaches 10^6. The digit weights are decided by induction-variable analysis of the decoding loop (constants, pow(5, counter), running products); the set that selects the mandatory hypotheses is <statement>.get_metavariables(), and numbering in the order of another collection of the converter is a violation.',
         'note': 'Trusted: python ast; _floating_patterns is appended in database order.',
         'design_ref': 'DESIGN.md section 3, C15',
     },
@@ -196,7 +196,7 @@ CHECKS = {
                 'consumed order-insensitively (automatic rules or a reasoned triage entry) or is unreachable from the serialisation / '
                 'translation entry points; uses of id/hash/directory order/clock/randomness/environment are enumerated and triaged; no '
                 'mutable default arguments, no module- or class-level mutable state written from functions, no cache reading instance '
-                'state. Byte equality of outputs is never observed. Module-level or class-level instances of repository classes whose methods mutate their own attributes, annotated class-level containers mutated through instances, and sequences extended by a set are violations. A keyed sort (sorted/min/max with key=) over a set is order-sensitive (ties keep set order); locals of methods are typed with the class\'s attribute types.',
+                'state. Byte equality of outputs is never observed. Module-level or class-level instances of repository classes whose methods mutate their own attributes, annotated class-level containers mutated through instances, and sequences extended by a set are violations. A keyed sort (sorted/min/max with key=) over a set is order-sensitive (ties keep set order); locals of methods are typed with the class\'s attribute types. A loop over a set whose iterations only rewrite the table entry of their own element (effect rule) is order-free unless the loop variable is read after the loop.',
         'note': 'Trusted: annotations for set-typedness; spec/order_triage.py (9 reasoned entries); dict insertion order.',
         'design_ref': 'DESIGN.md section 3, C18',
     },
@@ -215,7 +215,7 @@ CHECKS = {
                 'is asserted to prove the target before publication; Interpreter.pattern nets +1 on every arm. NOT decided: the '
                 'converter\'s images of terms, notations and axioms, nor acceptance of any database (run-time data); proofs using other '
                 'proof rules are outside the stated fragment (reported as advisory). The numbering of the target\'s mandatory hypotheses and the label-list tokens are checked with C15\'s rules (the replay resolves the letters through them). get_delta adds exactly one entry per metavariable label on every path; every Axiom / Lemma the converter builds takes its `metavars` from the statement\'s variables, never from the metavariables of the converted pattern (the assumption of the stack rule, checked at its 5 construction sites).'
-                ' Rules with antecedents unite their own metavariables with those of every antecedent (floats-from-statement/union), read through converter helpers.',
+                ' Rules with antecedents unite their own metavariables with those of every antecedent (floats-from-statement/union), read through converter helpers. The step numbers are decoded with C15\'s digit tables and digit order; the n-ary application of an undeclared constructor is curried over its arguments front to back (curried-in-argument-order); main() constructs the module with the declared axioms and the patterns of all lemmas as claims.',
         'note': 'Trusted: tracker effects (decided under C04), prelude statements in the benchmark databases, assumption that the '
                 'mandatory floats of a non-prelude label are get_metavars_in_order(label) and its essentials are the antecedents.',
         'design_ref': 'DESIGN.md section 3, C16',
@@ -233,7 +233,7 @@ CHECKS = {
                 'first and the lemma block last; floating hypotheses leave in one in-order pass over the insertion-ordered container; '
                 'set iterations in the slicer are triaged by name. Round-trip identity and re-verification of the compressed proof '
                 'are not decided. A `$d` over n variables is recorded as all n(n-1)/2 pairs (the loop headers are evaluated over four abstract variables); the parse transformer, which remembers declared variables, is created per parse and never at import time. Every node class reports the variables of all its term- or statement-valued children (no skipped kinds) - the slicer declares what get_metavariables reports; an optional field with a falsy inhabitant (proof: str | None) is never tested by truthiness in the printer / slicer / parser.'
-                ' The constant and variable scans recurse into nested blocks; `$v` is emitted only when the variable set is non-empty (grammar `$v token+`); a slice written as one tuple display is read as the equivalent appends.',
+                ' The constant and variable scans recurse into nested blocks; `$v` is emitted only when the variable set is non-empty (grammar `$v token+`); a slice written as one tuple display is read as the equivalent appends. Every labelled statement is entered into the container of cut antecedents on every path of the scanning loop, whether or not a slice is emitted for it.',
         'note': 'Trusted: python ast; the grammar is read from the `syntax` constant of metamath/parser.py.',
         'design_ref': 'DESIGN.md section 3, C17',
     },
@@ -247,7 +247,7 @@ CHECKS = {
                 'that format string. '
                 'The pretty printer and the serializer override the same 24 methods, each pretty override prints one terminated step '
                 'whose word is the opcode written. Injectivity of rendering in general is not decided. Instantiate.instantiate rebuilds the argument map with all stored entries first in stored order and Notation.__call__ stores arguments by position (the renderer is positional); no interpreter wrapper tests the wrapped interpreter for a class that separates the binary serializer from the pretty printer. The serializer writes an instruction on every path of every call (the pretty printer prints a step for every call).'
-                ' The memoisation choice does not depend on set iteration order (shared with C18, optimiser modules): binary and pretty files are written by separate processes.',
+                ' The memoisation choice does not depend on set iteration order (shared with C18, optimiser modules): binary and pretty files are written by separate processes. The pretty step of a metavariable prints every constraint list that the path conditions do not force empty.',
         'note': 'Trusted: python ast, str.format placeholder syntax. Known findings: equiv, sorted-exists, kore-exists.',
         'design_ref': 'DESIGN.md section 3, C19',
     },
